@@ -1496,7 +1496,7 @@ _vbi_cache_put_page		(vbi_cache *		ca,
 				   subpages (Section A.1 Note 1).
 				   One version. */
 				if (vbi_bcd_digits_greater (subno, 0x2959)
-				    || subno > 0x2300)
+				    || subno > 0x2359)
 					subno = 0; /* invalid */
 			} else if (vbi_bcd_digits_greater (subno, 0x79)) {
 				/* A rolling page without subpages.
